@@ -11,13 +11,14 @@ import (
 type Ev map[string]interface{}
 
 type Recorder struct {
-	parent *Recorder // a child forwards to its parent until it is switched off
-	off    bool
-	mu     sync.Mutex
-	w      *bufio.Writer
-	seq    int
-	mem    []Ev
-	keep   bool
+	AutoFlush bool      // flush after every event (so that a trace survives a crash of the process)
+	parent    *Recorder // a child forwards to its parent until it is switched off
+	off       bool
+	mu        sync.Mutex
+	w         *bufio.Writer
+	seq       int
+	mem       []Ev
+	keep      bool
 }
 
 func New(w io.Writer) *Recorder { return &Recorder{w: bufio.NewWriterSize(w, 1<<20)} }
@@ -63,6 +64,9 @@ func (r *Recorder) Emit(e Ev) {
 	}
 	r.w.Write(b)
 	r.w.WriteByte('\n')
+	if r.AutoFlush {
+		r.w.Flush()
+	}
 }
 
 // Do runs f under the recorder lock and emits its event: for linearization points.
@@ -90,6 +94,9 @@ func (r *Recorder) Do(f func() Ev) {
 	b, _ := json.Marshal(e)
 	r.w.Write(b)
 	r.w.WriteByte('\n')
+	if r.AutoFlush {
+		r.w.Flush()
+	}
 }
 
 func (r *Recorder) Events() []Ev {
